@@ -1459,11 +1459,109 @@ def rule_fill_loops_end(out, tier):
         out.undecided(rid, "CodedInputStream/refill loops", rel, "no loop calling a refill routine found")
 
 
+def rule_stream_reads_counted(out, tier):
+    rid = "CB5"
+    out.rule(rid, "coded_stream.h CodedInputStream: after every stream_.read(...) the number of bytes actually obtained (stream_.gcount()) is taken on every path before "
+                  "the method returns — a read whose count is never looked at cannot notice that the stream ended inside the requested range", 1)
+    roots, rc, err = dump(out.repo, "coded_stream.h")
+    rel = BIN + "/coded_stream.h"
+    if rc != 0 or not roots:
+        out.undecided(rid, "clang/coded_stream.h", rel, "clang could not parse the header: " + err[-300:])
+        return
+    for r in roots:
+        annotate_lines(r)
+    with open(os.path.join(out.repo, BIN, "coded_stream.h")) as f:
+        _SRC[0] = f.read()
+    cls = find_class(roots, "CodedInputStream")
+    if cls is None:
+        out.undecided(rid, "CodedInputStream", rel, "class not found in the AST")
+        return
+    n = 0
+    for name, fn in functions_in(cls):
+        if body_of(fn) is None:
+            continue
+        cp = CxxPaths({})
+        _FULL[0] = True
+        try:
+            paths = cp.paths(fn)
+        finally:
+            _FULL[0] = False
+        has_read = False
+        bad = False
+        for q in paths:
+            pending = False
+            for kind, t, _nl in q.events:
+                u = t.replace(" ", "")
+                if kind == "call" and re.search(r"stream_\.read\(", u):
+                    has_read = True
+                    pending = True
+                elif "gcount()" in u:
+                    pending = False
+            if pending and q.outcome != "throw":
+                bad = True
+        if has_read:
+            n += 1
+            out.check(not bad and not cp.overflow, rid, "CodedInputStream.%s/stream_.read counted" % name, "%s:%d" % (rel, fn.get("_line", 0)),
+                      "gcount() is taken after the read on every path",
+                      "a path returns after stream_.read(...) without ever taking stream_.gcount(): when the stream ends inside the requested bytes the destination keeps whatever it held and no error is raised")
+    if n == 0:
+        out.undecided(rid, "CodedInputStream/stream reads", rel, "no stream_.read call found")
+
+
+def rule_trivial_trait_set(out, tier):
+    rid = "TS2"
+    out.rule(rid, "serializers.h: the specialisations of IsTriviallySerializable — the types whose vectors/arrays are copied to the wire as their memory image — are exactly those "
+                  "whose documented element encoding IS their memory image (refs/wire.json: 1-byte integers, IEEE floats and complex on little-endian hosts, std::array / "
+                  "FixedNDArray of such); anything else (enums, wider integers: varints on the wire) would be encoded differently by the batch and the per-item routines", 4)
+    roots, rc, err = dump(out.repo, "reader_writer.h")
+    rel = BIN + "/serializers.h"
+    if rc != 0 or not roots:
+        out.undecided(rid, "clang/serializers.h", rel, "clang could not parse the headers: " + err[-300:])
+        return
+    path = os.path.join(out.repo, BIN, "serializers.h")
+    with open(path) as f:
+        src = f.read()
+    try:
+        with open(os.path.join(os.path.dirname(os.path.dirname(os.path.abspath(__file__))), "refs", "wire.json")) as f:
+            want = json.load(f).get("trivially_serializable_specialisations")
+    except Exception as e:  # noqa
+        want = None
+    found = []
+    for r in roots:
+        for x in walk(r):
+            if x.get("kind") == "ClassTemplatePartialSpecializationDecl" and x.get("name") == "IsTriviallySerializable":
+                rg = x.get("range") or {}
+                b, e = (rg.get("begin") or {}), (rg.get("end") or {})
+                bo, eo = b.get("offset"), e.get("offset")
+                f_ = (b.get("file") or (x.get("loc") or {}).get("file") or "")
+                if bo is None or eo is None:
+                    continue
+                text = src[bo:eo + 1]
+                m = re.search(r"struct\s+IsTriviallySerializable\s*<(.*)>\s*:\s*std::(true|false)_type", text, re.S)
+                if m:
+                    # compared as the set of names and numbers the condition mentions (independent of operand order and layout)
+                    toks = set(re.findall(r"[A-Za-z_][A-Za-z0-9_]*|\d+", m.group(1))) - {"T", "N", "Dims", "typename", "std", "enable_if_t", "value", "size_t"}
+                    found.append((" ".join(sorted(toks)), m.group(2)))
+    found = sorted(set(found))
+    if want is None:
+        out.undecided(rid, "refs/wire.json", rel, "reference list trivially_serializable_specialisations missing")
+        out.tables["trivially_serializable_specialisations"] = [list(x) for x in found]
+        return
+    want = sorted((a, b) for a, b in want)
+    for spec, val in found:
+        out.check((spec, val) in want, rid, "IsTriviallySerializable<%s>" % spec[:70], rel, "in the reference list",
+                  "a specialisation of IsTriviallySerializable outside the reference list: values of these types are written as raw memory by the vector/array/batch routines "
+                  "while the per-item routines (WriteEnum, WriteInteger, ...) use the documented encoding — the two halves of a stream disagree")
+    for spec, val in want:
+        if (spec, val) not in found:
+            out.bad(rid, "IsTriviallySerializable<%s>" % spec[:70], rel, "the reference specialisation is gone or changed: types that are raw on the wire lose (or others gain) the memcpy path")
+
+
 RULES = {
-    "C16": [rule_coded_stream_bounds, rule_blocks, rule_fill_loops_end],
-    "C01": [rule_coded_stream_bounds, rule_serializer_twins, rule_output_order, rule_reader_overwrites],
+    "C16": [rule_coded_stream_bounds, rule_blocks, rule_fill_loops_end, rule_stream_reads_counted],
+    "C01": [rule_coded_stream_bounds, rule_serializer_twins, rule_output_order, rule_reader_overwrites, rule_trivial_trait_set],
     "C15": [rule_cxx_header],
     "C04": [rule_cxx_header, rule_output_order],
     "C03": [rule_output_order, rule_reader_overwrites],
-    "C17": [rule_reader_overwrites, rule_blocks],
+    "C17": [rule_reader_overwrites, rule_blocks, rule_trivial_trait_set],
 }
